@@ -20,6 +20,13 @@ def sh(cmd, cwd=None, timeout=3600):
     return r.returncode, r.stdout + r.stderr
 
 
+def readme_of(d):
+    f = os.path.join(d, 'README.md')
+    if os.path.exists(f):
+        return open(f).read()
+    return json.load(open(os.path.join(d, 'meta.json'))).get('what_it_needs', '')
+
+
 def main():
     pid, d = sys.argv[1], sys.argv[2].rstrip('/')
     checks = [pid]
@@ -30,6 +37,8 @@ def main():
         if a.startswith('--tier='):
             tier = a.split('=')[1]
     name = '%s-%s' % (pid, os.path.basename(d))
+    if os.path.dirname(os.path.abspath(d)) == '/verif/seeded':   # re-evaluate a kept change (other checks)
+        name = os.path.basename(d)
     patch = os.path.join(d, 'patch.diff')
     demo = os.path.join(d, 'demo_test.go')
     src = open(demo).read()
@@ -38,7 +47,7 @@ def main():
     base = pkgname[:-5] if pkgname.endswith('_test') else pkgname
     pkgdir = {'ivg': '.', 'decode': 'decode', 'encode': 'encode', 'render': 'render', 'generate': 'generate', 'mdicons': 'mdicons',
               'vec': 'raster/vec', 'raster': 'raster'}.get(base, base)
-    meta = dict(id=name, property=pid, package_of_demo=pkgdir, readme=open(os.path.join(d, 'README.md')).read())
+    meta = dict(id=name, property=pid, package_of_demo=pkgdir, readme=readme_of(d))
     global WT
     WT = '/tmp/eval/' + name
     sh('git -C /repo worktree remove --force %s' % WT)
@@ -85,9 +94,15 @@ def finish(meta, name, d):
     out = os.path.join('/verif/seeded', name)
     os.makedirs(out, exist_ok=True)
     for f in ('patch.diff', 'demo_test.go'):
-        shutil.copy(os.path.join(d, f), os.path.join(out, f))
+        if os.path.abspath(d) != os.path.abspath(out):
+            shutil.copy(os.path.join(d, f), os.path.join(out, f))
     readme = meta.pop('readme')
     meta['what_it_needs'] = readme[:2500]
+    old = os.path.join(out, 'meta.json')
+    if os.path.exists(old):          # keep the results of checks evaluated earlier
+        prev = json.load(open(old)).get('checks', {})
+        prev.update(meta.get('checks', {}))
+        meta['checks'] = prev
     with open(os.path.join(out, 'meta.json'), 'w') as f:
         json.dump(meta, f, indent=1)
     ok = meta.get('applies') and meta.get('suite_passes_patched') and meta.get('demo_fails_patched') and meta.get('demo_passes_unpatched')
